@@ -127,8 +127,17 @@ func (x *c19Parser) apply(set []int, op int) (obs string, raw []byte, err error)
 	}
 }
 
+// key is the full reflective dump (de-duplication key: two parsers with different hidden
+// state are different states even if their documents agree).
 func (x *c19Parser) key() string {
 	return core.DumpState(x.p, "github.com/gopatchy/bkl")
+}
+
+// docsKey is what the property is about: the documents the parser exposes (ids, parent
+// links, data, pointer sharing). A correct implementation may keep other state (say, an
+// output cache that it invalidates properly); that must not raise an alarm.
+func (x *c19Parser) docsKey() string {
+	return core.DumpState(x.p.Documents(), "github.com/gopatchy/bkl")
 }
 
 func c19HistString(h []int) string {
@@ -297,6 +306,7 @@ func c19BFS(c *core.Ctx, set []int, maxLen, maxMerges int) {
 			c.Eval()
 			x := build(n.hist)
 			before := x.key()
+			docsBefore := x.docsKey()
 			c.Trans(1)
 			obs, _, _ := x.apply(set, op)
 			transitions++
@@ -307,13 +317,25 @@ func c19BFS(c *core.Ctx, set []int, maxLen, maxMerges int) {
 			}
 			after := x.key()
 			if !c19IsMerge(op) {
-				// I1: observations are self-loops on the full parser state
-				if after != before {
+				// I1: observations leave the exposed documents exactly as they were
+				if docsAfter := x.docsKey(); docsAfter != docsBefore {
 					c.Outcome("OBSERVATION-CHANGED-STATE")
-					c.Fail("observation-self-loop", "state-changed", wit, map[string]any{"op": c19OpNames[op], "before": clip(before), "after": clip(after)})
+					c.Fail("observation-self-loop", "documents-changed", wit, map[string]any{"op": c19OpNames[op], "before": clip(docsBefore), "after": clip(docsAfter)})
 					return
 				}
-				selfLoops++
+				if after != before {
+					// hidden state moved (a cache, a counter): not forbidden by itself, but then this is a
+					// new state whose futures must be explored like any other
+					c.Extra("observations_changing_hidden_state", 1)
+					if _, ok := seen[after]; !ok {
+						seen[after] = h2
+						states++
+						c.State(after)
+						frontier = append(frontier, node{h2, n.merges})
+					}
+				} else {
+					selfLoops++
+				}
 				// I2: observation is a function of (state, op)
 				k := before + "\x00" + fmt.Sprint(op)
 				if first, ok := obsByState[k]; ok {
